@@ -11,6 +11,7 @@ import Pongo.Model.Exec
 import Pongo.Props.C17
 import Pongo.Gen.SafeSites
 import Pongo.Lemmas.CleanInterp
+import Pongo.Lemmas.ParseAll
 
 namespace Pongo.C02
 open Pongo
@@ -148,8 +149,8 @@ state and context, on success and on failure:
 
 The theorem covers the opt-out-free fragment `NodeOK`: no `safe` filter, no `autoescape off`,
 no Go function in the context, and — named limits of this proof — no `filter` tag (whose
-parameters are written raw: known finding D10), no `spaceless` and no lazily computed include
-name.  `L` is any predicate the literal text of the templates involved satisfies. -/
+parameters are written raw: known finding D10) and no lazily computed include name (`spaceless`
+is inside: it only deletes whitespace, `Clean.thin`).  `L` is any predicate the literal text of the templates involved satisfies. -/
 
 section interpreter
 variable (T : LexTables) (cfg : SetCfg) (g : Env) (L : Bytes → Prop)
@@ -172,20 +173,24 @@ theorem initial_state_ok (cs : CState) (hw : WorldOK L cs) : Inv L { cs := cs } 
 /-- **Autoescape, end to end**: everything an execution writes — also what it wrote before failing —
     is a concatenation of chunks each of which is literal text of a template, the `escape` of
     something (no `<`, `>`, `"`, `'`; every `&` starts an entity), or the engine's own text for a
-    value that is not text.  No context string is among them. -/
+    value that is not text — in each case possibly with some whitespace bytes deleted (`c` is a
+    subsequence of the base chunk `c'` with the same non-whitespace bytes: what `spaceless` does).
+    No context string is among them. -/
 theorem output_is_clean (hg : EnvOK L g) (fuel ti : Nat) (ctx : Env) (hctx : EnvOK L ctx) (cs : CState) (hw : WorldOK L cs) :
     ∃ chunks : List Bytes,
       (stateAfter ((executeTplUnbuffered T cfg g fuel ti ctx).run { cs := cs })).out = chunks.flatten ∧
-      ∀ c ∈ chunks,
-        L c ∨
-        (∃ x, c = escapeHtml x ∧ (∀ b ∈ c, b ∉ C17.specials)) ∨
-        (∃ v : Val, v.isString = false ∧ v.isStringer = false ∧ c = v.toS) := by
+      ∀ c ∈ chunks, ∃ c', c.Sublist c' ∧ nonWs c = nonWs c' ∧
+        (L c' ∨
+         (∃ x, c' = escapeHtml x ∧ (∀ b ∈ c, b ∉ C17.specials)) ∨
+         (∃ v : Val, v.isString = false ∧ v.isStringer = false ∧ c' = v.toS)) := by
   obtain ⟨chunks, he, hc⟩ := (execution_keeps_autoescape_invariant T cfg g L hg fuel ti ctx hctx _ (initial_state_ok L cs hw)).hout
   refine ⟨chunks, he, fun c hcm => ?_⟩
-  cases hc c hcm with
-  | lit _ h => exact Or.inl h
-  | esc x => exact Or.inr (Or.inl ⟨x, rfl, C17.escape_no_special x⟩)
-  | engine v h1 h2 => exact Or.inr (Or.inr ⟨v, h1, h2, rfl⟩)
+  obtain ⟨c', hs, hn, hk⟩ := (hc c hcm).base
+  refine ⟨c', hs, hn, ?_⟩
+  rcases hk with h | ⟨x, rfl⟩ | h
+  · exact Or.inl h
+  · exact Or.inr (Or.inl ⟨x, rfl, fun b hb => C17.escape_no_special x b (hs.subset hb)⟩)
+  · exact Or.inr (Or.inr h)
 
 /-- the same for a single node and for a single expression, in any state the invariant holds in -/
 theorem node_keeps_autoescape_invariant (hg : EnvOK L g) (fuel : Nat) (n : Node) (hn : NodeOK L n) (σ : ES) (hσ : Inv L σ) :
@@ -205,6 +210,23 @@ theorem safe_values_are_clean (hg : EnvOK L g) (fuel : Nat) (e : Expr) (he : Exp
   rw [h] at h0
   exact h0.2.2
 
+/-! ### from the source to the fragment: expressions
+
+The theorems above speak about opt-out-free trees (`ExprOK`).  The parser-wide induction of
+`Lemmas/ParseAll.lean` links them to what is *written*: an expression parsed from tokens none of
+which is the identifier `safe` is opt-out-free, whatever else it contains and however deep its
+filter calls are nested. -/
+
+/-- **No `safe` written, no `safe` in the tree**: every expression the parser accepts from a token
+    list without the identifier `safe` lies in the fragment the autoescape theorems cover. -/
+theorem parsed_expression_is_optout_free (cfg : SetCfg) (toks : List Tok) (fuel : Nat) (e : Expr) (p' : PS)
+    (hno : ∀ t ∈ toks, t.typ = .ident → t.val ≠ b!"safe")
+    (h : parseExpression cfg fuel ⟨toks, toks⟩ = .ok (e, p')) : ExprOK e :=
+  ((allParse cfg toks (Q := fun n => n ≠ b!"safe")
+      (fun n hn => by obtain ⟨_, _, t, ht, hty, hv⟩ := hn; exact hv ▸ hno t ht hty) fuel).parseExpression _
+    (Good.ofList toks) _ h).1
+
+
 end interpreter
 
 -- non-vacuity: a template `<b>{{ x }}</b>` with `x` bound to markup in the context
@@ -218,11 +240,11 @@ example :
     simp only [List.mem_cons, List.not_mem_nil, or_false] at hn
     rcases hn with rfl | rfl | rfl
     · exact NodeOK.html _ _ _ _ _ _ (by intro tb lb; cases tb <;> cases lb <;> decide)
-    · exact NodeOK.var _ _ (ExprOK.var _ _ (by
+    · exact NodeOK.var _ _ (ExprAll.var _ _ (by
         intro p hp
         simp only [List.mem_cons, List.not_mem_nil, or_false] at hp
         subst hp
-        exact PartOK.ident _ _ (by intro args h; cases h)))
+        exact PartAll.ident _ _ (by intro args h; cases h)))
     · exact NodeOK.html _ _ _ _ _ _ (by intro tb lb; cases tb <;> cases lb <;> decide)
   · intro kv hkv
     simp only [List.mem_cons, List.not_mem_nil, or_false] at hkv
